@@ -352,6 +352,31 @@ def ini_rules(ck, fn):
         ok = arg_is_key(c, 0, "path") and arg_is_key(c, 1, "max_file_size") and arg_is_key(c, 2, "max_file_count")
         ck.ob("C19-O2", sitestr(fn, n), ok, "RotatingFileSink(path, max_file_size, max_file_count, options)" if ok else "RotatingFileSink arguments %s" % [describe(a) for a in c.get("args", [])],
               key="ini|arg|RotatingFileSink")
+        # the numbers reach the sink with their meaning: the sink reads a count <= 0 as "keep every rotated file", 1 as "never rotate", a size
+        # <= 0 as "no rotation by size" — a front-end that "sanitises" them (clamping to a minimum) turns one setting into another
+        from engine.conc import Conc, Unknown
+        for key_, cls_of in (("max_file_count", lambda v: "keep-all" if v <= 0 else "no-rotation" if v == 1 else v), ("max_file_size", lambda v: "off" if v <= 0 else v)):
+            if key_ not in reads or reads[key_]["var"] is None:
+                continue
+            dv_ = [v_ for dn_ in fn.find(lambda x: x.get("k") == "decl") for v_ in dn_.get("vars", []) if v_.get("decl") == reads[key_]["var"]]
+            if len(dv_) != 1 or not isinstance(dv_[0].get("init"), dict):
+                continue
+            init_ = dv_[0]["init"]
+            rid_ = reads[key_]["expr"]["id"]
+            if skip_copies(init_).get("id") == rid_:
+                ck.ob("C19-O2", sitestr(fn, reads[key_]["node"]), True, "%s reaches the sink as read" % key_, key="ini|value|%s" % key_)
+                continue
+            wrong = []
+            try:
+                for v in (-5, -1, 0, 1, 2, 5, 1024, 1048576):
+                    got = Conc(F, leaf=lambda n_, env_, v=v: v if n_.get("id") == rid_ else None).eval(init_, {"__fn__": fn})
+                    if not isinstance(got, int) or cls_of(got) != cls_of(v):
+                        wrong.append("%s = %d reaches the sink as %s" % (key_, v, got))
+            except Unknown as e_:
+                ck.ob("C19-O2", sitestr(fn, reads[key_]["node"]), None, "%s is transformed before it reaches the sink (%s) in a way that could not be tabulated: %s" % (key_, describe(init_)[:50], e_), key="ini|value|%s" % key_)
+                continue
+            ck.ob("C19-O2", sitestr(fn, reads[key_]["node"]), not wrong, "%s is transformed (%s) without changing what it means to the sink" % (key_, describe(init_)[:40]) if not wrong else
+                  "%s (count <= 0 means 'keep every rotated file', 1 'never rotate'; size <= 0 'no rotation by size')" % "; ".join(wrong[:3]), key="ini|value|%s" % key_)
         a = c.get("args", [])
         o = skip_copies(a[3]) if len(a) > 3 else None
         if not (isinstance(o, dict) and o.get("k") == "ref" and o.get("dk") == "local"):
